@@ -6,6 +6,7 @@ package vec
 
 import (
 	"context"
+	"sort"
 	"errors"
 	"fmt"
 	"sync"
@@ -39,6 +40,9 @@ type Model struct {
 	// Main whose timestamp is not after Now()
 	Now  func() time.Time
 	Main []*TS
+	// Order: how GetPowerTable lists the members ("" = as stored, "by-id" ascending actor id,
+	// "reverse" = stored order reversed). ec.Backend promises no order.
+	Order string
 	Head *TS
 	Finalized [][]byte
 	Calls     map[string]int
@@ -149,9 +153,7 @@ func (m *Model) GetPowerTable(_ context.Context, k gpbft.TipSetKey) (gpbft.Power
 	if !ok {
 		return nil, errors.New("unknown tipset")
 	}
-	out := make(gpbft.PowerEntries, len(ts.Table))
-	copy(out, ts.Table)
-	return out, nil
+	return Permute(ts.Table, m.Order), nil
 }
 
 func (m *Model) Finalize(_ context.Context, k gpbft.TipSetKey) error {
@@ -189,4 +191,20 @@ func Path(base, head *TS) ([]*TS, bool) {
 		rev = append(rev, cur)
 	}
 	return nil, false
+}
+
+
+// Permute returns a copy of entries in the order the backend serves them.
+func Permute(entries gpbft.PowerEntries, order string) gpbft.PowerEntries {
+	out := make(gpbft.PowerEntries, len(entries))
+	copy(out, entries)
+	switch order {
+	case "by-id":
+		sort.Slice(out, func(i, j int) bool { return out[i].ID < out[j].ID })
+	case "reverse":
+		for i, j := 0, len(out)-1; i < j; i, j = i+1, j-1 {
+			out[i], out[j] = out[j], out[i]
+		}
+	}
+	return out
 }
